@@ -297,7 +297,9 @@ def run_race(ctx, deep=True):
     # notification thread is stopped inside Task._update, the pilot-end
     # handler runs, the notification thread goes on): bound 2 for those
     bound = 1 if ctx.quick else 2
-    jobs  = [(ts, nt, pe, 2 if (deep and nt == rps.DONE) else bound)
+    jobs  = [(ts, nt, pe, 2 if (nt == rps.DONE and
+                                (deep or (ts == rps.TMGR_STAGING_OUTPUT and
+                                          pe == rps.FAILED))) else bound)
              for ts in RACE_TASK_STATES
              for nt in RACE_NOTIFICATION
              for pe in rps.FINAL]
@@ -308,7 +310,7 @@ def run_race(ctx, deep=True):
 
 def run(ctx):
     global _cfgs
-    ctx.level = 'exploration'
+    ctx.level = 'model_checking'
     run_race(ctx)
     per_task  = list(itertools.product(BINDINGS, TASK_STATES))
     if ctx.quick:
